@@ -157,8 +157,16 @@ impl Iterator for InstrIter {
             }
             self.pos += 1;
         }
-        if JITTER.load(Ordering::Relaxed) != 0 {
-            std::hint::spin_loop();
+        let j = JITTER.load(Ordering::Relaxed);
+        if j != 0 {
+            // a slow source: the thread inside next() holds the dependency's handle while the others
+            // wait for it or are only just being spawned (the first pull is slow in half of the runs)
+            let h = ((self.pos as u64) ^ j).wrapping_mul(0x9E37_79B9_7F4A_7C15) >> 58;
+            if h == 0 || (self.pos <= 1 && j & 2 != 0) {
+                std::thread::sleep(std::time::Duration::from_micros(300 + 100 * (j % 23)));
+            } else {
+                std::hint::spin_loop();
+            }
         }
         INSIDE.store(false, Ordering::SeqCst);
         out
